@@ -16,19 +16,19 @@ WHAT = {
  "C10": ("node model: request routing to eligible ready peers, id assignment, answer correlation; hop-by-hop ids drawn by concurrent senders from one connection's generator (line skeleton regenerated from the source) are distinct and non-zero under every schedule of any number of threads", "C10"),
  "C11": ("watchdog clauses of the timer check for all clock and timeout values; for every sequence of operations a connection awaiting a DWA carries a valid DWR time stamp, so that in every reachable state the timer check closes it once the DWA timeout is exceeded and sends no second DWR before", "C11"),
  "C12": ("reconnect policy iff-theorem, DPR handling; node model, for every sequence of operations: every connect() the node has issued was to a configured peer whose persistent flag is set, and the flags are never rewritten (non-persistent peers are never dialled); every registered connection the node dialled is the Peer.connection of the peer its node name resolves to, hence never two self-initiated connections to one peer", "C12"),
- "C13": ("node model: the connection/socket tables stay mutually consistent for every sequence of operations (a removed connection is in none of them); removal lemmas for peer records and readiness; for every sequence of operations a peer without connection that has a disconnect time also has a disconnect reason", "C13"),
+ "C13": ("node model: the connection/socket tables stay mutually consistent for every sequence of operations (a removed connection is in none of them); removal lemmas for peer records and readiness; for every sequence of operations a peer without connection that has a disconnect time also has a disconnect reason; for every sequence of operations a connection object that is not registered has a closed socket, stopped workers and is in none of the socket / pending-answer tables", "C13"),
  "C14": ("node + threading-application model: no worker dies, every slot accounted for, consumers alive — for every sequence of operations (faults, handler outcomes, consumer/handler schedules)", "C14"),
  "C15": ("write path as an interleaving system of queueing threads, writer and I/O loop (program extracted from the running code): accepted bytes are always a prefix of, finally equal to, the FIFO concatenation, for every schedule, partial write and write error", "C15"),
  "C16": ("identifier generators: never zero, wrap to 1, distinct within the period, start-value and session-id format laws; for the line skeleton extracted from the source, distinctness under every schedule of any number of threads", "C16"),
  "C17": ("retransmission window: reject iff answered-within-window and T; the window is exactly the last rq answered ids for every sequence of answers", "C17"),
- "C18": ("serialised node model: shutdown clauses; the stopping flag is never lowered and, in every state of every continuation of a history containing stop(), timer check, reconnect pass and admission of newcomers do nothing", "C18"),
+ "C18": ("serialised node model: shutdown clauses; the stopping flag is never lowered and, in every state of every continuation of a history containing stop(), timer check, reconnect pass and admission of newcomers do nothing; for every sequence of operations followed by the I/O thread's final pass: no connection is registered, every connection object ever created has a closed socket and stopped workers, and the connection, socket and pending-answer tables are empty (invariant: an open socket belongs to a registered connection)", "C18"),
  "C19": ("node model, for every sequence of operations: a connection whose workers run is registered, pending-answer tables exist for registered connections only, and once no connection is registered every worker has stopped and the per-connection tables are empty; step lemmas for the per-transaction tables", "C19"),
  "C20": ("answer class pairing (kernel-checked) and header law", "C20"),
 }
 PARTIAL = {"C14": "OS-thread liveness and join timing are runtime behaviour: the model carries every place where an exception can escape a worker and the slot bookkeeping; the harness runs the real code with inert thread stubs and checks their liveness and a reconnect-and-serve probe against a fresh node",
            "C15": "preemption points are the source lines that touch shared state (local lines run with the preceding shared line); a line such as `buf += x` is one step — bytecode-level interleavings inside one line are not modelled (the lock that covers them is, as an atom)",
            "C16": "interleavings at source-line granularity of the extracted skeleton; bytecode-level interleavings inside one line are not modelled",
-           "C18": "stop() racing the I/O thread on node.connections and join timeouts are schedule/runtime behaviour; stop is modelled as serialised events",
+           "C18": "stop() racing the I/O thread on node.connections and join timeouts are schedule/runtime behaviour; stop is modelled as serialised events; the listening sockets and Application.stop() are straight-line code of stop() observed by the correspondence and the direct oracle, not part of the whole-history theorem",
            "C10": "the blocking Event.wait and the timeout/late-answer race are modelled as the two atomic orders",
            "C04": "wall-clock linearity is measured as supporting evidence only",
            "C09": "the serialised node model does not interleave threads; the racing-submissions part models route_answer as two shared-state steps (lookup, removal); equal hop-by-hop ids on two connections are a recorded finding",
